@@ -323,9 +323,12 @@ class Model(object):
 
   def form_value(self, name, p, r):
     try:
-      return sum(form_terms(name, p, r), mpf(0))
+      v = sum(form_terms(name, p, r), mpf(0))
     except ZeroDivisionError:
       raise RefDomainError("singular")
+    if isinstance(v, mp.mpc):
+      raise RefDomainError("complex")
+    return v
 
   # ---- table forms: piecewise cubic built by FITPACK (scipy) from the *spec data*,
   # evaluated in mpmath so that it can be differentiated and frozen to one interval.
@@ -458,7 +461,7 @@ class Model(object):
   def form_mag(self, name, p, r):
     try:
       return sum((abs(t) for t in form_terms(name, p, r)), mpf(0))
-    except ZeroDivisionError:
+    except (ZeroDivisionError, TypeError):
       raise RefDomainError("singular")
 
   def _pow_mag(self, a, Ma, b, Mb):
@@ -674,11 +677,12 @@ def scale(fn, r, extra=0):
 
 
 MAG_FACTOR = mpf("1e-13")   # ~1000 ulp of the tracked magnitude
+UNDERFLOW = mpf("1e-290")    # doubles flush to zero / lose precision below ~1e-308
 
 
 def close(obs, ref, q=0.0, sc=0, rel=1e-9, abs_=0.0, mag=0):
   """|obs-ref| <= q/2(1+2^-20) + rel*max(|ref|,sc) + 1e-13*mag + abs_"""
   obs = F(obs)
   ref = F(ref)
-  tol = mpf(q) / 2 * (1 + mpf(2) ** -20) + mpf(rel) * max(abs(ref), F(sc)) + MAG_FACTOR * F(mag) + mpf(abs_)
+  tol = mpf(q) / 2 * (1 + mpf(2) ** -20) + mpf(rel) * max(abs(ref), F(sc)) + MAG_FACTOR * F(mag) + mpf(abs_) + UNDERFLOW
   return abs(obs - ref) <= tol, float(abs(obs - ref)), float(tol)
